@@ -55,6 +55,7 @@ struct Ctx {
     // join_all bookkeeping
     std::map<int, std::vector<uint64_t>> ja_reads; // per calling simulated thread: wall-clock reads made inside its join_all call
     int main_tid = 0;
+    bool small_default_stack = false; // the simulated system hands out 128 KiB stacks by default
     uint64_t timeout_ns = 0;
     struct Ext { uint64_t inc_done_seq; bool dec_invoked; }; // a thread the library does not manage takes part in the unjoined count (public API)
     std::deque<Ext> exts;
@@ -157,6 +158,16 @@ void alloc_hook(size_t, void *ud) {
 struct Arg { Ctx *c; int id; uint64_t magic; };
 static Arg g_args[MAXT + 1];
 
+// a thread launched with options that leave stack_size at 0 is promised at least 1 MiB of stack even where the system default is
+// smaller (posix/thread.c raises it): a body may therefore use a few hundred KiB
+__attribute__((noinline)) static unsigned deep_frame(int id) {
+    volatile unsigned char big[300 * 1024];
+    unsigned acc = 0;
+    for (size_t i = 0; i < sizeof big; i += 1024) { big[i] = (unsigned char)((i >> 10) + (unsigned)id); acc += big[i]; }
+    return acc;
+}
+static volatile unsigned g_deep_acc;
+
 void thread_fn(void *p) {
     Arg *a = (Arg *)p;
     Ctx &c = *a->c;
@@ -169,6 +180,7 @@ void thread_fn(void *p) {
     c.by_tid[r.sim_tid] = a->id;
     sim::note(sim::PK_HARNESS, nullptr, 2000 + a->id);
     c.hist = sim::mix64(c.hist, (uint64_t)a->id * 7 + 1);
+    if (c.small_default_stack && ((r.opt >= 1 && r.opt <= 4) || r.opt == 6)) { g_deep_acc += deep_frame(a->id); sim::probe("body_used_300KiB_of_stack_on_small_default_system"); }
     body(c, a->id);
     r.fn_done = true;
     c.hist = sim::mix64(c.hist, (uint64_t)a->id * 7 + 2);
@@ -494,6 +506,8 @@ RunInfo run(const sim::Plan &plan) {
     g_alloc_regs.clear();
     aws_logger_set(&g_thread_logger);
     if (plan.get("alloc_registers_atexit", 0)) simalloc::set_acquire_hook(alloc_hook, &c);
+    c.small_default_stack = plan.get("small_default_stack", 0) != 0;
+    if (c.small_default_stack) sim::set_default_stack(128 << 10);
     c.main_tid = sim::self();
     if (aws_thread_get_managed_thread_count() != 0) sim::violation("c20:harness", "managed thread count not zero at start of run");
     body(c, 0);
@@ -629,6 +643,7 @@ void gen(uint64_t seed, int tier, sim::Plan &p) {
     // for sleeping threads to wake up within a reasonable number of polling iterations
     p.cfg["cpu_cost"] = r.pick(std::vector<int64_t>{1000, 10000, 100000});
     if (r.chance(0.2)) p.cfg["alloc_registers_atexit"] = 1;
+    if (r.chance(0.2)) p.cfg["small_default_stack"] = 1;
     p.cfg["soft_budget"] = 30000;
     p.cfg["hard_budget"] = 3000000;
 }
@@ -668,7 +683,8 @@ extern const Harness H_C20 = {
     "threads (managed and joinable), bodies with yields, virtual sleeps and 0-4 at-exit registrations; main joins the joinable threads in "
     "generated order and calls aws_thread_join_all_managed before, while and after managed threads finish, sometimes with a join timeout; "
     "faults: preemption at every lock/cond/create/join, spurious wake-ups, stalls, REALTIME steps, pthread_create failing with "
-    "EAGAIN/ENOMEM/EPERM/EINVAL, pthread_attr_setaffinity_np failing (unpinned retry). Distinct = synchronisation-order fingerprint combined "
+    "EAGAIN/ENOMEM/EPERM/EINVAL, pthread_attr_setaffinity_np failing (unpinned retry); in 20% of the plans the simulated system's default "
+    "thread stack is 128 KiB (musl-like) and bodies of threads launched with options use a 300 KiB frame. Distinct = synchronisation-order fingerprint combined "
     "with the start/finish/callback history; non-trivial = at least two threads launched, shared sync objects, at least one preemption.",
     "source/posix/thread.c, thread_shared.c, posix/mutex.c, posix/condition_variable.c, condition_variable.c, posix/clock.c, linked_list, "
     "string.c, allocator.c (real)",
